@@ -130,7 +130,7 @@ PROPS = {
                 "Serialize to a JSON string and back (also via serde_json::Value), the json_num adapter (serialize + deserialize with the scale limit), json_num_option incl. null; "
                 "JSON number texts of 1..2000 digits with fractions, exponents (150000 +-1, up to 400000), leading '-', and malformed variants (leading '+', trailing '.', leading zero, "
                 "dangling 'e', '..', '_', leading '.') through plain Deserialize, json_num and json_num_option, as numbers and as strings; serde token streams of every integer width and "
-                "f32/f64 (NaN, inf, subnormal, -0.0, random bits) via IntoDeserializer. Expected results: Display model, parser model, JSON-number recogniser, scale limit from build.rs, "
+                "f32/f64 (NaN, inf, subnormal, -0.0, random bits) and values of other types (bool, unit, char, sequence, map: error value expected) via IntoDeserializer. Expected results: Display model, parser model, JSON-number recogniser, scale limit from build.rs, "
                 "IEEE bit semantics.",
         "trusted_base": TB_COMMON + ["serde / serde_json plumbing and serde_json's number grammar (modelled by a recogniser, tied by the malformed-number stream)"],
         "assumptions": ASSUME_COMMON,
